@@ -65,6 +65,9 @@ type DeepT struct {
 	SAS  [][1][]int
 	MA   map[string][2]*Node
 	AA   [2][1]*Node
+	// free-form data: references BELOW an interface element
+	SI []interface{}
+	MI map[string]interface{}
 }
 
 func genNode(r *rand.Rand, depth int) *Node {
@@ -79,6 +82,41 @@ func genNode(r *rand.Rand, depth int) *Node {
 		}
 	}
 	return n
+}
+
+// genFree builds JSON-like free-form data (what a decoded document looks like): maps and slices
+// nested below interface values
+func genFree(r *rand.Rand, depth int) interface{} {
+	m := map[string]interface{}{"v": float64(r.Intn(100))}
+	if depth > 0 {
+		m["sub"] = genFree(r, depth-1)
+		m["list"] = []interface{}{float64(r.Intn(10)), map[string]interface{}{"z": float64(r.Intn(10))}}
+	}
+	return m
+}
+
+func scribbleFree(v interface{}) {
+	switch x := v.(type) {
+	case map[string]interface{}:
+		for k := range x {
+			scribbleFree(x[k])
+		}
+		for k := range x {
+			x[k] = "scribble"
+		}
+		if x != nil {
+			x["scribble"] = -777.0
+		}
+	case []interface{}:
+		for i := range x {
+			scribbleFree(x[i])
+		}
+		for i := range x {
+			x[i] = "scribble"
+		}
+	case *Node:
+		scribbleNode(x)
+	}
 }
 
 func genInts(r *rand.Rand) []int {
@@ -132,8 +170,19 @@ func genDeep(r *rand.Rand) *DeepT {
 		n := genNest(r)
 		d.PSt = &n
 	}
-	if r.Intn(3) == 0 {
+	switch r.Intn(4) {
+	case 0:
 		d.I = "text"
+	case 1:
+		d.I = genFree(r, 2)
+	case 2:
+		d.I = []interface{}{genFree(r, 1), "x"}
+	}
+	if r.Intn(3) > 0 {
+		d.SI = []interface{}{genFree(r, 2), []interface{}{1.0, genFree(r, 1)}, "s", 2.0}
+	}
+	if r.Intn(3) > 0 {
+		d.MI = map[string]interface{}{"m": genFree(r, 2), "l": []interface{}{genFree(r, 1)}, "n": 1.0}
 	}
 	if r.Intn(3) > 0 {
 		d.SA = [][2]*Node{{genNode(r, 2), genNode(r, 1)}, {nil, genNode(r, 1)}}
@@ -243,6 +292,9 @@ func scribble(d *DeepT) {
 	}
 	scribbleNode(d.AA[0][0])
 	scribbleNode(d.AA[1][0])
+	scribbleFree(d.I)
+	scribbleFree(d.SI)
+	scribbleFree(d.MI)
 }
 
 func snap(d *DeepT) string {
